@@ -5,6 +5,7 @@ CONSTANTS
   BaseSeq <- BasesTiny
   WrapSeq <- WrapsTiny
   RenSeq <- RensMC
+  DocSet = {FALSE}
   Family = "all"
   MaxFields = 1
   MaxDepth = 3
